@@ -471,6 +471,63 @@ func (sc *c13Scenario) labels(stdout string) (rows, cols []string, err error) {
 	return rows, cols, nil
 }
 
+// c13Screens rebuilds the screen after every periodic render from the lines the program wrote to its multi-line terminal
+// (simrt.TermLine): a periodic render runs under the output mutex, so its lines share one scheduler step and Held is set.
+func c13Screens(term []simrt.TermEvent) []string {
+	var screens []string
+	screen := map[int]string{}
+	max := -1
+	flush := func() {
+		var b strings.Builder
+		for i := 0; i <= max; i++ {
+			l := screen[i]
+			if rateToken.MatchString(l) {
+				continue // the status footer
+			}
+			b.WriteString(l)
+			b.WriteByte('\n')
+		}
+		screens = append(screens, b.String())
+	}
+	open, step := false, -1
+	for _, e := range term {
+		if open && (!e.Held || e.Step != step) {
+			flush()
+			open = false
+		}
+		screen[e.Line] = e.Text
+		if e.Line > max {
+			max = e.Line
+		}
+		if e.Held {
+			open, step = true, e.Step
+		}
+	}
+	// (the last group is the final render or belongs to it: the final output is compared through stdout)
+	return screens
+}
+
+// c13Consistent: every pair of labels of an intermediate screen that also occurs in the final order is shown in the same
+// relative order.
+func c13Consistent(frame, final []string) (string, string, bool) {
+	pos := map[string]int{}
+	for i, l := range final {
+		pos[l] = i
+	}
+	last, lastLabel := -1, ""
+	for _, l := range frame {
+		p, ok := pos[l]
+		if !ok {
+			continue
+		}
+		if p < last {
+			return lastLabel, l, false
+		}
+		last, lastLabel = p, l
+	}
+	return "", "", true
+}
+
 func c13Reverse(xs []string) []string {
 	out := make([]string, len(xs))
 	for i, x := range xs {
@@ -552,6 +609,9 @@ func init() {
 		var runs []run
 		exec := func(sa string, v *c3Variant, shuffle []int) (run, bool) {
 			cs := sc.scenario(sa, t, shuffle)
+			// key-based sort modes: a pair of keys is ordered the same way in every render, whatever else is on the screen
+			keyBased := sc.Sort != "value" && (sc.Sort != "reduce" || sc.RedExpr == "" || sc.RedExpr == "{0}")
+			cs.RecordTerm = keyBased && len(sc.Keys) <= 40
 			o := c3RunVariant(rc, cs, v)
 			if !rc.StdEnd(o.Sim, "termination") {
 				rc.Viol[len(rc.Viol)-1].Msg += fmt.Sprintf("\nvariant: %s\nscenario: %v", v, desc)
@@ -573,6 +633,31 @@ func init() {
 			if len(rows) != wantRows {
 				rc.Violate("HARNESS-rows", "%d rows parsed, expected %d\n%q\n%v", len(rows), wantRows, o.Stdout, desc)
 				return run{}, false
+			}
+			if cs.RecordTerm {
+				for fi, screen := range c13Screens(o.Sim.Term) {
+					frows, fcols, err := sc.labels(screen)
+					if err != nil {
+						rc.Probes["intermediate-screens-unparsed"]++
+						continue
+					}
+					rc.Probes["intermediate-screens"]++
+					if len(frows) >= 2 {
+						rc.Probes["intermediate-screens-2+rows"]++
+					}
+					if x, y, ok := c13Consistent(frows, rows); !ok {
+						rc.Violate("intermediate-order", "sort=%s keys=%s cmd=%s: intermediate render #%d shows row %q above %q, the final output of the same run shows them the other way round\n intermediate: %q\n final: %q\nvariant: %s\nscenario: %v",
+							sa, keysKind, sc.Cmd, fi+1, x, y, frows, rows, v, desc)
+						break
+					}
+					if sc.Cmd == "table" {
+						if x, y, ok := c13Consistent(fcols, cols); !ok {
+							rc.Violate("intermediate-order", "sort=%s keys=%s cmd=%s: intermediate render #%d shows column %q before %q, the final output of the same run shows them the other way round\n intermediate: %q\n final: %q\nvariant: %s\nscenario: %v",
+								sa, keysKind, sc.Cmd, fi+1, x, y, fcols, cols, v, desc)
+							break
+						}
+					}
+				}
 			}
 			return run{v: v, rows: rows, cols: cols, sortArg: sa}, true
 		}
